@@ -10,7 +10,7 @@ def run(tier, seed):
     rng = random.Random(seed)
     q = tier == 'quick'
     fams = ['sloper', 'sloper', 'sloper', 'mono', 'invl', 'tee', 'mono2', 'two_g', 'dipole_h']
-    zmat_cases(chk, rng, 48 if q else 600, ('ideal',), families=fams)
-    nor = 24 if (q and not chk.broken) else (64 if q else 400)
+    zmat_cases(chk, rng, 48 if q else 2400, ('ideal',), families=fams)
+    nor = 24 if (q and not chk.broken) else (64 if q else 1600)
     run_oracle(chk, rng, nor, 'zor.c03', 'c03-oracle', ('ideal',), families=fams)
     return chk.finish()
